@@ -358,7 +358,7 @@ def locate(obs, ref):
 # MANIFEST-BEGIN
 MANIFEST = {
     'technique': 'reference-model monitor on trajectories and on the compiled RHS probed at chosen times, with white-noise input arrays (any misalignment is an O(1) error)',
-    'level_text': 'Generated circuits receive 1-3 white-noise input arrays through single and wildcard paths in shapes (N,), (N,1), (N,n); Euler/Heun trajectories of all state variables must equal the reference iterates that consume sample k during step k (1e-7), the adaptive RHS probed at times inside, between, at and beyond grid points must equal the reference with np.interp on linspace(0,T,N) (1e-8), and scipy runs must match a reference solution of the interpolated problem; inputs converging with edges, same-node operators or other inputs must add up. Further families: arrays broadcast/distributed to 11-16 nodes of one type, and two runs in one process with long (>1000 samples) pulse-like arrays that agree at both ends (each run must use its own array). Further families: adaptive runs whose number of samples differs from simulation_time/step_size, and fixed-step runs with two or three inputs on the Fortran (1-based), torch and jax backends. Adaptive runs are compared with a reference that integrates from sample to sample (the interpolated input has a kink at every sample), with a tolerance relative to the error of a hand-written run with the same method and settings. Held on observed runs only.',
+    'level_text': 'Generated circuits receive 1-3 white-noise input arrays through single and wildcard paths in shapes (N,), (N,1), (N,n); Euler/Heun trajectories of all state variables must equal the reference iterates that consume sample k during step k (1e-7), the adaptive RHS probed at times inside, between, at and beyond grid points must equal the reference with np.interp on linspace(0,T,N) (1e-8), and scipy runs must match a reference solution of the interpolated problem; inputs converging with edges, same-node operators or other inputs must add up. Further families: arrays broadcast/distributed to 11-16 nodes of one type, and two runs in one process with long (>1000 samples) pulse-like arrays that agree at both ends (each run must use its own array). Further families: adaptive runs whose number of samples differs from simulation_time/step_size, and fixed-step runs with two or three inputs on the Fortran (1-based), torch and jax backends. Adaptive runs are compared with a reference that integrates from sample to sample (the interpolated input has a kink at every sample), with a tolerance relative to the error of a hand-written run with the same method and settings. Further families: node types that share one operator template (wildcard inputs over several vectorization groups), and PopulationTemplate circuits in which a 1-D input converges with matrix, unit-gain scalar and coupling connections on one variable (machinery of C16). Held on observed runs only.',
     'level_note': 'Trusted: vp/ref.py, numpy.interp as the meaning of linear interpolation. Default backend (other backends interp helpers: C02).',
 }
 # MANIFEST-END
